@@ -661,6 +661,19 @@ def _cyclic_facets(model, rep):
     from ..elements import load_refdoms
     R4 = "C11-R4"
     refdoms = load_refdoms(model)
+    be = model.cls("skfem.mesh.mesh_3d", "Mesh3D").methods.get(
+        "boundary_edges")
+    if be is None:
+        raise AnalysisError("Mesh3D.boundary_edges not found")
+    consecutive = any(
+        isinstance(x, ast.BinOp) and isinstance(x.op, ast.Mod)
+        and "+ 1" in src(x.left) for x in ast.walk(be.node)) and \
+        "self.facets" in src(be.node)
+    if not consecutive:
+        rep.ok(R4, "Mesh3D.boundary_edges:consecutive-rows",
+               "boundary_edges no longer pairs consecutive rows of the "
+               "stored facets: the storage order of the facets is free")
+        return
     n = 0
     for c in model.all_classes():
         if not c.path.startswith("skfem/mesh/"):
